@@ -281,6 +281,23 @@ fn confirm(prop: &Prop, total: &mut Report) {
             }
             continue;
         }
+        if sp.isolate {
+            // cases of isolated spaces may corrupt memory: never re-run them inside the driver;
+            // describe them only (they are deterministic functions of the index and are re-run by
+            // `--replay` in a process of their own)
+            let mut ctx = Ctx::new(&sp.name);
+            ctx.idx = v.idx;
+            ctx.want_sample = true;
+            ctx.describe_only = true;
+            let _ = guarded(|| (sp.f)(v.idx, &mut ctx));
+            if let Some(o) = v.detail.as_object_mut() {
+                o.entry("profile").or_insert(json!(profile_name()));
+                if let Some(s) = ctx.samples.first() {
+                    o.entry("case").or_insert(s.clone());
+                }
+            }
+            continue;
+        }
         let mut ctx = Ctx::new(&sp.name);
         ctx.idx = v.idx;
         ctx.want_sample = true;
